@@ -203,13 +203,22 @@ def _case(n, k0, k1, k2, k3, mode):
         return rt.ok()
 
 
+def third_full():
+    """thorough tier (PARTITION = (k0, True)): the third argument ranges over all 11 kinds, else over 6 of them"""
+    return bool(PARTITION is not None and PARTITION[1])
+
+
 def w_lists(n: int, k0: int, k1: int, k2: int, mode: int) -> str:
     """
-    pre: PARTITION is None or k0 == PARTITION
-    pre: 1 <= n <= 3 and 0 <= k0 < 11 and 0 <= k1 < 11 and 0 <= k2 < 11 and 0 <= mode < 6
+    pre: PARTITION is None or k0 == PARTITION[0]
+    pre: 1 <= n <= 3 and 0 <= k0 < 11 and 0 <= k1 < 11 and 0 <= k2 < (11 if third_full() else 6) and 0 <= mode < 6
     post: _ == ''
     """
-    return _case(rt.sel(n, 4), rt.sel(k0, 11), rt.sel(k1, 11), rt.sel(k2, 11), 0, rt.sel(mode, 6))
+    nn = rt.sel(n, 4)
+    # (selectors of positions the list does not have are not branched on)
+    b = rt.sel(k1, 11) if nn >= 2 else 0
+    c = (rt.sel(k2, 11) if third_full() else rt.of([0, 2, 4, 6, 9, 10], k2)) if nn >= 3 else 0
+    return _case(nn, rt.sel(k0, 11), b, c, 0, rt.sel(mode, 6))
 
 
 def w_lists4(k0: int, k1: int, k2: int, k3: int, mode: int) -> str:
@@ -226,8 +235,8 @@ def obligations(tier):
         CH('K_exit_code_and_iteration', MOD, 'k_exit', timeout=120, engine='K', regime='traced',
            encodes=['Context.trash_each', 'TrashPutReporter.exit_code', 'TrashAllResult.any_failure'],
            stubs=['SingleTrasher -> symbolic results'], bounds='0..4 arguments, every failure pattern'),
-        CH('W_argument_lists_up_to_3', MOD, 'w_lists', timeout=2400, partitions=list(range(11)), engine='W', regime='selector',
-           encodes=K.PUT_FUNCS, stubs=K.STUBS, bounds='lists of 1..3 arguments x 11 argument kinds per position x 6 option sets'),
+        CH('W_argument_lists_up_to_3', MOD, 'w_lists', timeout=2400, partitions=[(k, tier == 'thorough') for k in range(11)], engine='W', regime='selector',
+           encodes=K.PUT_FUNCS, stubs=K.STUBS, bounds='lists of 1..3 arguments x 11 argument kinds per position (third position: %s) x 6 option sets' % ('11 kinds' if tier == 'thorough' else '6 kinds: 0 2 4 6 9 10')),
     ]
     if tier == 'thorough':
         obs.append(CH('W_argument_lists_of_4', MOD, 'w_lists4', timeout=7000, partitions=list(range(11)), twin=False, engine='W',
